@@ -151,7 +151,15 @@ def build_case(bdir_emu, td):
         a, j = decode_args(e["mcv"], e["payload"], e["jumbo"], e["jdata"], sigs, labels)
         recs.append({"th": ti, "m": e["mcv"], "mc": e["mcv"][0], "a": a, "j": j})
         clocks.append(clk)
-    system = {"threads": threads, "cpus": cpus, "models": sorted(models),
+    # order of the looms in the CPU rows: by minimum rank when every loom has ranks, else by name
+    lranks = {}
+    for (lname, pid), pi in procinfo.items():
+        lranks.setdefault(lidx[lname], []).append(pi["rank"])
+    if all(any(r >= 0 for r in rs) for rs in lranks.values()):
+        order = sorted(lranks, key=lambda l: min(r for r in lranks[l] if r >= 0))
+    else:
+        order = sorted(lranks)
+    system = {"threads": threads, "cpus": cpus, "models": sorted(models), "loom_order": order,
               "marks": [{"type": t, "stack": s} for t, s in sorted(marks.items())]}
     return system, recs, clocks, labels
 
@@ -166,6 +174,33 @@ def pcf_label_codes(td, labels):
                 for v, lab in pcf.types[ty][1].items():
                     if lab in labels:
                         out[(ty, v)] = labels[lab]
+    return out
+
+
+def calibrate_labels(tbdir, models, labels):
+    """the emulator writes the task-type PCF values only when the emulation finishes: for runs that
+    fail, learn gid -> label code from a small accepted trace that defines the same labels"""
+    out = {}
+    for mc, ty in (("V", 11), ("6", 36)):
+        if mc not in models:
+            continue
+        d = core.mkscratch("cal")
+        try:
+            td = os.path.join(d, "ovni")
+            system = {"threads": [{"tid": 101, "pid": 1001, "app": 1, "loom": 1, "rank": -1}],
+                      "cpus": [{"loom": 1, "idx": 0, "phy": 10, "virt": False},
+                               {"loom": 1, "idx": -1, "phy": -1, "virt": True}], "marks": [], "models": ["O", mc]}
+            evs = [{"th": 1, "m": "OHx", "a": [0, 101, 7]}]
+            for k, lab in enumerate(sorted(labels)):
+                evs.append({"th": 1, "m": mc + "Yc",
+                            "jumbo": (struct.pack("<I", k + 1) + lab.encode("latin1") + b"\0").hex()})
+            evs.append({"th": 1, "m": "OHe", "a": []})
+            synth.materialise(td, system, evs, models=emuhist.require_for({"O", mc}))
+            r = emu.ovniemu(tbdir, td, ("-l",))
+            if r.accepted:
+                out.update(pcf_label_codes(td, labels))
+        finally:
+            shutil.rmtree(d, ignore_errors=True)
     return out
 
 
@@ -217,6 +252,8 @@ def run_test(tbdir, t):
             try:
                 vs, _ = synth.views(td, system, clocks)
                 tl = pcf_label_codes(td, labels)
+                if not tl and labels:
+                    tl = calibrate_labels(tbdir, system["models"], labels)
                 for cells in vs:
                     for c in cells:
                         if c[2] in (11, 36):
